@@ -7,8 +7,10 @@
 (*     declared length at every depth ("shape"), and the same payload      *)
 (*     bytes wherever the payload length is admissible for the type        *)
 (*     ("payload")                                                         *)
-(* Additional rejections by the decoder are tolerated (counted by the      *)
-(* driver).                                                                *)
+(*   - Frame finds a well-framed AVP list => the decoder may refuse it    *)
+(*     only for a payload its data type cannot represent: an Address of    *)
+(*     fewer than 3 bytes, of family 0 / 65535, or of family 1 / 2 with a  *)
+(*     length other than 4 / 16 ("reject" otherwise)                       *)
 (***************************************************************************)
 EXTENDS Wire, VDict, Json, TLC
 
@@ -37,10 +39,19 @@ ShapeOK(gs, fs) ==
 PayOK(gs, fs) ==
   \A i \in 1..Len(gs) : PayloadOK(gs[i], fs[i]) /\ PayOK(gs[i].kids, fs[i].kids)
 
+AddrKeys == {<<C4(VCode("addr")), NoVendor>>, <<C4(VVCode("addr")), VV>>}
+BadAddr(p) == \/ Len(p) < 3
+              \/ U16(p, 1) \in {0, 65535}
+              \/ (U16(p, 1) = 1 /\ Len(p) # 6) \/ (U16(p, 1) = 2 /\ Len(p) # 18)
+RECURSIVE MayReject(_)
+MayReject(fs) == \E i \in 1..Len(fs) :
+                   \/ (<<fs[i].code, fs[i].vendor>> \in AddrKeys /\ BadAddr(fs[i].payload))
+                   \/ MayReject(fs[i].kids)
+
 Reasons(e) ==
   LET f == Frame(e.body, GSet) IN
   IF ~f.ok THEN (IF e.ok THEN <<"accept">> ELSE <<>>)
-  ELSE IF ~e.ok THEN <<>>
+  ELSE IF ~e.ok THEN (IF MayReject(f.recs) THEN <<>> ELSE <<"reject">>)
   ELSE IF ~ShapeOK(e.recs, f.recs) THEN <<"shape">>
   ELSE IF ~PayOK(e.recs, f.recs) THEN <<"payload">>
   ELSE <<>>
